@@ -142,6 +142,11 @@ const char *RAW_CORPUS[] = {
     "DEFINE <P> ; AS x := 1 END DEFINE y := 1 ; z := 2",
     "DEFINE a <ARGS> , AS x := 1 END DEFINE a 1 , 2 ,",
     "Define a As a a End Define a",
+    "DEFINE PRIO 1000000 skip AS skip END DEFINE skip",
+    "DEFINE PRIO 2000000 skip AS skip END DEFINE skip",
+    "DEFINE PRIO 2147483646 a AS b END DEFINE DEFINE PRIO 1000000 b AS a END DEFINE a",
+    "DEFINE PRIO 999999 skip AS skip END DEFINE x := skip + 1",
+    "DEFINE PRIO 1000001 <ID> + <INT> AS $0 + $1 END DEFINE x := y + 1",
 };
 const int N_RAW = sizeof(RAW_CORPUS) / sizeof(RAW_CORPUS[0]);
 
@@ -869,6 +874,18 @@ Plan gen_macro_plan(Rng &rng, bool thorough) {
     divergent = f.divergent; dup = f.dup_slot; cheap = f.cheap; family = true;
     int reps = divergent ? 1 : (int)rng.range(1, thorough ? 12 : 6);
     text = std::string(f.defs) + "\n";
+    if (rng.chance(1, 3)) {
+      // priorities around (and beyond) the hidden standard macros' 1000000: every definition without one gets one
+      static const char *PR[] = {"0", "1", "7", "999999", "1000000", "1000001", "2000000", "2147483646"};
+      std::string t2; size_t pos = 0;
+      while (pos < text.size()) {
+        size_t d = text.find("DEFINE ", pos);
+        if (d == std::string::npos || (d >= 4 && text.compare(d - 4, 4, "END ") == 0)) { if (d == std::string::npos) { t2 += text.substr(pos); break; } t2 += text.substr(pos, d + 7 - pos); pos = d + 7; continue; }
+        t2 += text.substr(pos, d + 7 - pos); pos = d + 7;
+        if (text.compare(pos, 5, "PRIO ") != 0) t2 += std::string("PRIO ") + PR[rng.below(8)] + " ";
+      }
+      text = t2;
+    }
     for (int i = 0; i < reps; i++) { if (i) text += " ;\n"; text += f.use; }
     p.note = "macro family";
   } else {
@@ -878,7 +895,7 @@ Plan gen_macro_plan(Rng &rng, bool thorough) {
     int nd = (int)rng.range(1, 3);
     for (int d = 0; d < nd; d++) {
       text += "DEFINE ";
-      if (rng.chance(1, 3)) text += "PRIO " + std::to_string(rng.below(4)) + " ";
+      if (rng.chance(1, 3)) text += "PRIO " + std::to_string(rng.chance(1, 4) ? 1000000 + (long)rng.below(3) - 1 : (long)rng.below(4)) + " ";
       int rl = (int)rng.range(1, 3), nslots = 0;
       for (int i = 0; i < rl; i++) { if (rng.chance(1, 4)) { text += std::string(slots[rng.below(3)]) + " "; nslots++; } else text += std::string(lits[rng.below(5)]) + " "; }
       text += "AS ";
